@@ -83,14 +83,14 @@ binop("sub", "impl_op_ex", 5, "op_sub_dual2_dual2", "Sub", "sub", "&Dual2", "&Du
 
 # ---- mul.rs
 binop("mul", "impl_op_ex_commutative", 0, "op_mul_dual_f64", "Mul", "mul", "&Dual", "&R64", "Dual", True,
-      WF1, f"un1_post(a, r, {X} * {YF}, {YF})", "C01")
+      WF1, f"un1_post(a, r, {X} * {YF}, {YF})", "C01 C10")
 binop("mul", "impl_op_ex_commutative", 1, "op_mul_dual2_f64", "Mul", "mul", "&Dual2", "&R64", "Dual2", True,
-      WF2, f"un2_post(a, r, {X} * {YF}, {YF}, 0real)", "C02")
+      WF2, f"un2_post(a, r, {X} * {YF}, {YF}, 0real)", "C02 C10")
 binop("mul", "impl_op_ex", 0, "op_mul_dual_dual", "Mul", "mul", "&Dual", "&Dual", "Dual", False,
-      WF1B, f"bin1_post(a, b, r, {X} * {Y}, {Y}, {X})", "C01 C03",
+      WF1B, f"bin1_post(a, b, r, {X} * {Y}, {Y}, {X})", "C01 C03 C10",
       body_start="proof { a.lemma_view_props(); b.lemma_view_props(); }", after=HINT2("Dual", MUL1, MUL1))
 binop("mul", "impl_op_ex", 1, "op_mul_dual2_dual2", "Mul", "mul", "&Dual2", "&Dual2", "Dual2", False,
-      WF2B, f"bin2_post(a, b, r, {X} * {Y}, {Y}, {X}, 0real, 1real, 0real)", "C02 C03",
+      WF2B, f"bin2_post(a, b, r, {X} * {Y}, {Y}, {X}, 0real, 1real, 0real)", "C02 C03 C10",
       body_start="proof { a.lemma_view_props(); b.lemma_view_props(); }", after=HINT2("Dual2", MUL2, MUL2))
 
 
@@ -232,7 +232,7 @@ binop("div", "impl_op_ex", 0, "op_div_dual_f64", "Div", "div", "&Dual", "&R64", 
 binop("div", "impl_op_ex", 2, "op_div_dual2_f64", "Div", "div", "&Dual2", "&R64", "Dual2", False,
       f"{WF2} && {YF} != 0real", f"un2_post(a, r, {X} / {YF}, 1real / {YF}, 0real)", "C02")
 binop("div", "impl_op_ex", 1, "op_div_f64_dual", "Div", "div", "&R64", "&Dual", "Dual", False,
-      f"{Y} != 0real", f"un1_post(b, r, {XF} / {Y}, -{XF} / ({Y} * {Y}))", "C01",
+      f"{Y} != 0real", f"un1_post(b, r, {XF} / {Y}, -{XF} / ({Y} * {Y}))", "C01 C10",
       body_start="proof { b.lemma_view_props(); axiom_pow_small(b.real@); }",
       after=[("a * b.clone().pow", 0, "proof { let y = b.real@; let x = a@; assert(y * y != 0real) by(nonlinear_arith) requires y != 0real; alg_mul_recip(x, y); alg_comm(1real / y, x); alg_mul_recip(x, y * y); alg_neg_recip(x, y * y); assert forall|n: String| #[trigger] vx_tail.s_grad(n) == (-x / (y * y)) * b.s_grad(n) by { alg_scale_neg(x, 1real / (y * y), b.s_grad(n)); } }")])
 binop("div", "impl_op_ex", 4, "op_div_dual_dual", "Div", "div", "&Dual", "&Dual", "Dual", False,
@@ -241,7 +241,7 @@ binop("div", "impl_op_ex", 4, "op_div_dual_dual", "Div", "div", "&Dual", "&Dual"
       after=[("a * b_", 0, "proof { let y = b.real@; let x = a.real@; alg_mul_recip(x, y); alg_mul_recip(x, y * y); alg_neg_recip(x, y * y); assert forall|n: String| #[trigger] vx_tail.s_grad(n) == (1real / y) * a.s_grad(n) + (-x / (y * y)) * b.s_grad(n) by { assert(b_.s_grad(n) == (-1real / (y * y)) * b.s_grad(n)); alg_scale_neg2(x, 1real / (y * y), b.s_grad(n)); } }")])
 
 binop("div", "impl_op_ex", 3, "op_div_f64_dual2", "Div", "div", "&R64", "&Dual2", "Dual2", False,
-      f"{Y} != 0real", f"un2_post(b, r, {XF} / {Y}, -{XF} / ({Y} * {Y}), 2real * {XF} / ({Y} * {Y} * {Y}))", "C02",
+      f"{Y} != 0real", f"un2_post(b, r, {XF} / {Y}, -{XF} / ({Y} * {Y}), 2real * {XF} / ({Y} * {Y} * {Y}))", "C02 C10",
       body_start="proof { b.lemma_view_props(); axiom_pow_small(b.real@); }",
       after=[("a * b.clone().pow", 0, "proof { let y = b.real@; let x = a@; assert(y * y != 0real) by(nonlinear_arith) requires y != 0real; assert(y * y * y != 0real) by(nonlinear_arith) requires y != 0real; let t2 = 1real / (y * y); let t3 = 1real / (y * y * y); alg_mul_recip(x, y); alg_comm(1real / y, x); alg_mul_recip(x, y * y); alg_neg_recip(x, y * y); alg_mul_recip(2real * x, y * y * y); assert(2real * (x * t3) == (2real * x) * t3) by(nonlinear_arith); assert forall|n: String| #[trigger] vx_tail.s_grad(n) == (-x / (y * y)) * b.s_grad(n) by { alg_scale_neg(x, t2, b.s_grad(n)); } assert forall|n: String, k: String| #[trigger] vx_tail.s_hess(n, k) == (-x / (y * y)) * b.s_hess(n, k) + (2real * x / (y * y * y)) * b.s_grad(n) * b.s_grad(k) / 2real by { alg_div2_f64(x, b.s_hess(n, k), b.s_grad(n), b.s_grad(k), t2, t3); } }")])
 
